@@ -19,7 +19,8 @@ ROOT = os.path.dirname(os.path.dirname(os.path.abspath(__file__)))
 REPO = os.environ.get("VERIF_REPO", "/repo")
 SRC = os.environ.get("VERIF_SRC", os.path.join(REPO, "src"))
 
-QUERY_TIMEOUT = {"quick": 20, "thorough": 120}
+# caps are >= 10x the times measured on the unchanged tree (the check environment is several times slower)
+QUERY_TIMEOUT = {"quick": 60, "thorough": 180}
 
 
 def tier_timeout(tier):
